@@ -1,7 +1,11 @@
 package c05
 
 import (
+	"bytes"
 	"fmt"
+	"os"
+	"os/exec"
+	"path/filepath"
 	"runtime"
 	"strings"
 
@@ -11,8 +15,62 @@ import (
 	"github.com/quay/claircore/verifharness/internal/hx"
 )
 
-// Run is the harness entry point for C05.
+// Run is the harness entry point for C05. The scenarios run in a child
+// process: a send on a closed channel, a second close or a concurrent map
+// write inside the code under test kills the process that runs it, and the
+// parent then reports the scenario that was in flight as the failing input.
 func Run(cfg hx.Config) error {
+	if os.Getenv("C05_CHILD") != "" {
+		return runChild(cfg)
+	}
+	cmd := exec.Command(os.Args[0], os.Args[1:]...)
+	cmd.Env = append(os.Environ(), "C05_CHILD=1")
+	var errb bytes.Buffer
+	cmd.Stdout = os.Stdout
+	cmd.Stderr = &errb
+	err := cmd.Run()
+	if err == nil {
+		os.Stderr.Write(errb.Bytes())
+		return nil
+	}
+	inflight, _ := os.ReadFile(filepath.Join(cfg.OutDir, inflightName))
+	r, err2 := hx.NewRun(cfg)
+	if err2 != nil {
+		return err2
+	}
+	r.Rule = "the scenario process crashed; only the scenario in flight is reported"
+	what := "exit: " + err.Error()
+	for _, l := range strings.Split(errb.String(), "\n") {
+		if strings.HasPrefix(l, "panic:") || strings.HasPrefix(l, "fatal error:") {
+			what = l
+			break
+		}
+	}
+	tail := errb.String()
+	if len(tail) > 2500 {
+		tail = tail[:2500]
+	}
+	r.Notes["crash_output"] = tail
+	r.Case("crash", true)
+	r.Fail("", fmt.Sprintf("process-crashed (%s) while running %s", what, strings.TrimSpace(string(inflight))))
+	return r.Close()
+}
+
+const inflightName = "inflight.txt"
+
+var inflightFile *os.File
+
+// inflight records the call about to be made, for the parent to report if
+// the process dies in it.
+func inflight(s string) {
+	if inflightFile == nil {
+		return
+	}
+	inflightFile.Truncate(0)
+	inflightFile.WriteAt([]byte(s), 0)
+}
+
+func runChild(cfg hx.Config) error {
 	nop := zerolog.Nop()
 	zlog.Set(&nop)
 	r, err := hx.NewRun(cfg)
@@ -22,14 +80,20 @@ func Run(cfg hx.Config) error {
 	r.Rule = "one scenario = an index report (packages, environments, distributions, repositories), a stub store table, 0..64 scripted matchers (plain / version-filter / authoritative / remote; filter sets, query constraints, acceptance hash, scripted failures in Get / Vulnerable / remote call, context cancellation from inside Get) and 0..34 scripted enrichers, run through EnrichedMatch, Libvuln.Scan or Match on the real code under two or more GOMAXPROCS values with seeded yields/spins/sleeps inside every scripted call; the canonical outcome (sorted report | err) is one protocol line answered by the Lean model; a scenario is non-trivial by its distinct scan line (the scenario text is part of the evidence key)"
 	rnd := hx.NewRand(cfg.Seed)
 	startGoroutines := runtime.NumGoroutine()
+	if f, err := os.Create(filepath.Join(cfg.OutDir, inflightName)); err == nil {
+		inflightFile = f
+		defer f.Close()
+	}
 
 	// witnesses first: the repaired defect and the listed finding
-	replayCancelledContext(r, rnd)
-	replayRemoteSwallowed(r, rnd)
+	if os.Getenv("C05_SKIP_WITNESSES") == "" { // (mutation experiments: see what the generators alone find)
+		replayCancelledContext(r, rnd)
+		replayRemoteSwallowed(r, rnd)
+	}
 
 	nscen := cfg.N(1500, 40000)
 	extra := cfg.N(1, 2)
-	for i := 0; i < nscen && !r.Stop(); i++ {
+	for i := 0; i < nscen && !r.Stop() && !tooManyHangs(); i++ {
 		sc := genScenario(rnd, r.Count)
 		procs := []int{1 + rnd.Intn(16)}
 		for k := 0; k < extra; k++ {
@@ -42,7 +106,7 @@ func Run(cfg hx.Config) error {
 	}
 	// controlled schedules: the protocol machine must reproduce every transition
 	nproto := cfg.N(400, 10000)
-	for i := 0; i < nproto && !r.Stop(); i++ {
+	for i := 0; i < nproto && !r.Stop() && !tooManyHangs(); i++ {
 		sc := protoScenario(rnd, r.Count)
 		var lim int
 		switch c := rnd.Intn(10); {
@@ -84,7 +148,7 @@ func replayCancelledContext(r *hx.Run, rnd *hx.Rand) {
 		sc.api = api
 		runScenario(r, rnd, sc, []int{1, 4}, "witness=cancelled-context")
 		bad := 0
-		for i := 0; i < 150 && bad == 0; i++ {
+		for i := 0; i < 150 && bad == 0 && !tooManyHangs(); i++ {
 			w := newWorld(sc, rnd.Fork())
 			res := call(w, 1+i%4)
 			r.Case(fmt.Sprintf("cancelled-context %s #%d", api, i), i == 0)
